@@ -282,6 +282,9 @@ def rule_hibernate_table(ck):
 
 
 def run(ck):
+    # releasing a companion reaches the companion: watchpoints hold its number (shared with C14)
+    from rules import C14
+    C14.rule_companion_identity(ck)
     rule_temp_pairs(ck)
     rule_teardown(ck)
     rule_exit_siblings(ck)
